@@ -198,6 +198,32 @@ def run(rep: Report, tier: str) -> None:
 			if isinstance(n, ast.Assert) or (isinstance(n, ast.Call) and unparse(n.func) in ('self._calc', 'self._bitwise', 'self._cat')):
 				r2.check(guarded_through(members, g, n, converts), f'converted:{unparse(n)[:40]}', (EVAL, n.lineno), f'`{unparse(n)[:60]}` is not inside try..except AssertionError -> Errors.OperationNotAllowed')
 
+	# the chain is folded left to right, one operator per step
+	from vlib import fold
+	r5 = rep.rule('C17/chain-folded-left-to-right', '_op_bin_each folds [operand, operator, operand, ...] front to back (Python evaluates a same-level chain left to right: 10 - 3 - 2 == 5) with the operator of each step', floor=2)
+	eparam = ob.params()[-1]
+	back = fold.backward_consumers(ob.node, {eparam})
+	r5.check(not back, 'front-to-back', ob.where, f'the element list is consumed from its end ({[unparse(b) for b in back][:3]}): the chain is then folded right to left, which changes the value for non-associative operators (10 - 3 - 2, 8 / 2 / 2, 100 >> 2 << 1)', unparse(back[0]) if back else '')
+	steps = [c_ for g in members for c_ in ast.walk(g.node) if isinstance(c_, ast.Call) and unparse(c_.func) in ('self._calc', 'self._bitwise') and len(c_.args) == 3]
+	in_loop = [(c_, fold.enclosing_loop(ob.node, c_)) for c_ in steps if any(c_ is x for x in ast.walk(ob.node))]
+	helper_calls = [(c_, fold.enclosing_loop(ob.node, c_)) for c_ in ast.walk(ob.node) if isinstance(c_, ast.Call) and isinstance(c_.func, ast.Attribute) and any(g.name == c_.func.attr for g in members if g is not ob) and len(c_.args) >= 2]
+	sites = [(c_, lp, c_.args[1]) for c_, lp in in_loop if lp is not None] + [(c_, lp, c_.args[1]) for c_, lp in helper_calls if lp is not None]
+	if not sites:
+		r5.skip('operator-per-step', ob.where, 'no per-step call inside a loop of _op_bin_each')
+	for c_, lp, opx in sites:
+		r5.check(fold.is_variant(lp, opx), f'operator-per-step:{unparse(c_)[:40]}', (EVAL, c_.lineno), f'`{unparse(c_)[:80]}` uses the operator `{unparse(opx)}`, which does not change from one step of the chain to the next', unparse(c_)[:100])
+	# the accumulator is the LEFT operand of each step
+	for c_, lp, opx in sites:
+		acc = c_.args[0]
+		accn = {x.id for x in ast.walk(acc) if isinstance(x, ast.Name)}
+		pm_ = parent_map(ob.node)
+		stmt = c_
+		while id(stmt) in pm_ and not isinstance(stmt, ast.stmt):
+			stmt = pm_[id(stmt)]
+		tgt = unparse(stmt.targets[0]) if isinstance(stmt, ast.Assign) else None
+		if tgt is not None:
+			r5.check(tgt in accn, f'accumulator-is-left:{unparse(c_)[:40]}', (EVAL, c_.lineno), f'the result of a step is stored in `{tgt}` but the next step takes `{unparse(acc)}` as its left operand: the fold must carry the accumulated value on the left (left-associative)', unparse(stmt)[:100])
+
 	# grammar exhaustiveness
 	r3 = rep.rule('C17/grammar-exhaustive', 'for each handled operator class, every token the grammar admits there is refused (not in AllowOps) or has an explicit branch; on_factor\'s default arm covers only identity tokens', floor=12)
 	gm = GrammarModel()
